@@ -57,11 +57,14 @@ var (
 
 // BOp is one operation of a burst scenario.
 type BOp struct {
-	Kind string   `json:"kind"` // add glv getleaf hval hupd query walk del delcond walkdel
+	Kind string   `json:"kind"` // add glv getleaf hval hupd query walk walksorted del delcond walkdel
 	Path []string `json:"path,omitempty"`
 	Nil  bool     `json:"nil,omitempty"` // add: store nil
 	Odd  bool     `json:"odd,omitempty"` // add, hupd: parity of the (unique) value written; conditional deletes remove even values
 	For  int      `json:"for,omitempty"` // setup getleaf: the racer that starts with this handle
+	// query, walk, walksorted: the visitor yields the processor that many times per
+	// reported leaf (widens the visit; a scheduling device, it decides no verdict)
+	Yield int `json:"yield,omitempty"`
 }
 
 // BurstScenario is the replayable unit of the burst part.
@@ -169,7 +172,10 @@ func (b *burstRun) finalWalk(o *HOp) { perform(b.tr, o, nil, b.now) }
 func burstHOp(g int, o BOp, unique int) HOp {
 	x := HOp{G: g, Kind: o.Kind, Path: o.Path}
 	if o.Kind == "walksorted" {
-		x.Kind = "walk"
+		x.Kind, x.Sorted = "walk", true
+	}
+	if isQueryKind(x.Kind) {
+		x.Yield = min(max(o.Yield, 0), 64)
 	}
 	switch o.Kind {
 	case "add":
@@ -204,6 +210,9 @@ func (sc *BurstScenario) runOnce(stall, confirm time.Duration) (h *History, stuc
 			b.initial[((o.For%n)+n)%n] = burstHandle{got, x.H, x.Path}
 		}
 	}
+	// silent look (read locks only, nobody else is running yet): what do the racers find
+	h.Start = "empty"
+	b.tr.Walk(func([]string, *ctree.Leaf, interface{}) error { h.Start = "populated"; return nil })
 	for g, prog := range sc.Racers {
 		b.ops[g] = make([]HOp, len(prog))
 		b.ran[g] = make([]bool, len(prog))
@@ -243,6 +252,12 @@ type burstFail struct{ class, msg string }
 
 // judgeSmall applies both history oracles to a small history.
 func judgeSmall(h *History, withModel bool) (fail *burstFail, inconclusive []string) {
+	if h.Panic == "" {
+		// the clauses that need no model (c10_rdatomic_test.go) also judge histories that store nil
+		if cl, msg := universalClauses(h); cl != "" {
+			return &burstFail{cl, msg}, nil
+		}
+	}
 	if withModel {
 		v := judge(h, 2*time.Second, 10*time.Second)
 		switch {
@@ -272,7 +287,33 @@ func burstLabels(h *History, n int, into map[string]bool) (nontrivial bool) {
 	for l := range cl.labels {
 		into[l] = true
 	}
+	_, _, rd := readerDeleteAtomicity(h)
+	rd.labels(into)
 	ops := h.Ops
+	// WalkSorted on a node that is empty (the root of an empty tree, a leaf holding
+	// nil) while an Add goes through that node
+	for i := range ops {
+		v := &ops[i]
+		if v.G >= n || v.Kind != "walk" || !v.Sorted {
+			continue
+		}
+		into["walksorted"] = true
+		for j := range ops {
+			a := &ops[j]
+			if a.G >= n || a.G == v.G || a.Kind != "add" || a.Err != "" || len(a.Path) == 0 || a.Call > v.Ret || v.Call > a.Ret {
+				continue
+			}
+			into["overlap:walksorted-vs-successful-add"] = true
+			if h.Start == "empty" {
+				into["overlap:walksorted-vs-add-into-tree-empty-at-start"] = true
+			}
+			for k := range ops {
+				if s := &ops[k]; s.Kind == "add" && s.Nil && s.Err == "" && s.Ret < a.Call && isProperPrefix(s.Path, a.Path) {
+					into["overlap:walksorted-vs-add-through-nil-leaf"] = true
+				}
+			}
+		}
+	}
 	first := map[int]*HOp{}
 	for i := range ops {
 		o := &ops[i]
@@ -505,7 +546,7 @@ func genBurst(t *rapid.T) *BurstScenario {
 	}
 	handles := !nilOK // no handle is taken in a scenario that may store nil (a nil leaf can turn into a branch)
 	genOp := func(t *rapid.T, setup bool) BOp {
-		kinds := []string{"add", "add", "add", "add", "add", "add", "add", "add", "glv", "glv", "del", "del", "delcond", "walkdel", "query", "walk"}
+		kinds := []string{"add", "add", "add", "add", "add", "add", "add", "add", "glv", "glv", "del", "del", "delcond", "walkdel", "query", "walk", "walksorted"}
 		if handles {
 			kinds = append(kinds, "getleaf", "hupd", "hval")
 		}
@@ -530,9 +571,13 @@ func genBurst(t *rapid.T) *BurstScenario {
 		return o
 	}
 	// setup: which state the racers find
-	state := rapid.IntRange(0, 9).Draw(t, "state")
+	state := rapid.IntRange(0, 12).Draw(t, "state")
 	if nilOK && len(focus) > 0 && rapid.Bool().Draw(t, "nilfocus") {
 		state = 4
+	}
+	if state >= 10 {
+		genBurstPopulated(t, sc, func(t *rapid.T) BOp { return genOp(t, false) })
+		return sc
 	}
 	switch {
 	case state < 2: // fresh
@@ -585,4 +630,83 @@ func genBurst(t *rapid.T) *BurstScenario {
 	sc.Aligned = rapid.IntRange(0, 4).Draw(t, "aligned") != 0
 	sc.Reps = rapid.SampledFrom([]int{16, 32, 64}).Draw(t, "reps")
 	return sc
+}
+
+// genBurstPopulated: the racers find 3-10 leaves spread over several branches;
+// one racer starts with a delete that removes many of them at once (subtree or
+// glob pattern), another with a visit of the same region (Query, Walk,
+// WalkSorted, the visitor optionally yielding after every leaf), the others with
+// either or anything. A reader must see all or nothing of what one delete
+// removed (clause (2) of c10_rdatomic_test.go).
+func genBurstPopulated(t *rapid.T, sc *BurstScenario, anyOp func(*rapid.T) BOp) {
+	n := 0
+	for _, top := range []string{"a", "b", "c"} {
+		for _, mid := range []string{"a", "b"} {
+			var leaves [][]string
+			switch rapid.IntRange(0, 5).Draw(t, "shape") {
+			case 0:
+			case 1:
+				leaves = [][]string{{top, mid}}
+			case 2:
+				leaves = [][]string{{top, mid, "a"}}
+			case 3:
+				leaves = [][]string{{top, mid, "b"}}
+			default:
+				leaves = [][]string{{top, mid, "a"}, {top, mid, "b"}}
+			}
+			for _, p := range leaves {
+				if n < 10 {
+					sc.Setup = append(sc.Setup, BOp{Kind: "add", Path: p, Odd: rapid.IntRange(0, 3).Draw(t, "odd") == 0})
+					n++
+				}
+			}
+		}
+	}
+	for _, p := range [][]string{{"a", "a", "a"}, {"b", "b", "b"}, {"c", "a", "b"}} {
+		if n < 3 {
+			// (an Add that meets a leaf on its way fails: legal, merely one leaf less)
+			sc.Setup = append(sc.Setup, BOp{Kind: "add", Path: p})
+			n++
+		}
+	}
+	patterns := [][]string{{}, {}, {"*"}, {"a"}, {"b"}, {"c"}, {"*", "*"}, {"*", "a"}, {"*", "b"}, {"a", "*"}, {"b", "*"}, {"*", "*", "*"}, {"*", "*", "a"}, {"*", "a", "*"}, {"a", "b"}}
+	pattern := func(t *rapid.T) []string { return rapid.SampledFrom(patterns).Draw(t, "pattern") }
+	deleter := func(t *rapid.T) BOp {
+		return BOp{Kind: rapid.SampledFrom([]string{"del", "del", "del", "delcond", "walkdel"}).Draw(t, "delkind"), Path: pattern(t)}
+	}
+	visitor := func(t *rapid.T) BOp {
+		o := BOp{Kind: rapid.SampledFrom([]string{"walksorted", "walksorted", "walk", "walk", "query", "query"}).Draw(t, "visitkind")}
+		if o.Kind == "query" {
+			o.Path = pattern(t)
+		}
+		o.Yield = rapid.SampledFrom([]int{0, 0, 0, 1, 2, 4}).Draw(t, "yield")
+		return o
+	}
+	nr := rapid.SampledFrom([]int{2, 2, 3, 3, 4}).Draw(t, "racers")
+	for g := 0; g < nr; g++ {
+		var first BOp
+		role := g
+		if g >= 2 {
+			role = rapid.IntRange(0, 2).Draw(t, "role")
+		}
+		switch role {
+		case 0:
+			first = deleter(t)
+		case 1:
+			first = visitor(t)
+		default:
+			first = anyOp(t)
+		}
+		prog := []BOp{first}
+		if rapid.IntRange(0, 2).Draw(t, "second") == 0 {
+			if rapid.Bool().Draw(t, "visitagain") {
+				prog = append(prog, visitor(t))
+			} else {
+				prog = append(prog, anyOp(t))
+			}
+		}
+		sc.Racers = append(sc.Racers, prog)
+	}
+	sc.Aligned = true
+	sc.Reps = rapid.SampledFrom([]int{16, 32, 64}).Draw(t, "reps")
 }
